@@ -69,8 +69,9 @@ def to_scenario(beh, sid):
     return {"id": sid, "cfg": cfg, "ans": ans, "stim": stim}
 
 
-KEEP_MET = {"resp_time": ["ok"], "rpc": ["count", "ok"], "lost": [], "fail_reason": ["r"], "att_check": ["count"],
-            "att_install": ["count", "ok"], "waited": ["d"]}
+KEEP_MET = {"resp_time": ["ok", "d"], "rpc": ["count", "ok"], "lost": [], "fail_reason": ["r"], "att_check": ["count"],
+            "att_install": ["count", "ok"], "waited": ["d"], "interval": ["d", "clock", "src"], "ok_duration": ["d"],
+            "fail_duration": ["d"], "first_seen": ["d"]}
 
 
 def pick(d, keys):
